@@ -1,4 +1,5 @@
 import Driver.Settle
+import Driver.RepStake
 namespace Driver
 open Layer
 
@@ -68,5 +69,30 @@ def runNoHaltSlash (_inp : List String) (out : String) : Option Res :=
   let funded := (out.splitOn " ;; ").any (fun r => r.startsWith "X disp" && (r.splitOn ":").contains "ok")
   some { agree := true, monitor := !halted, nontrivial := decide (blocks ≥ 20) && funded, model := s!"blocks={blocks}",
          note := ((out.splitOn " ;; ").find? (fun r => r.startsWith "HALT" || r.startsWith "harnesspanic")).getD "" }
+
+/-- family `snapshotsum` (C09, C04): every stake snapshot a report records — the origins `DivvyingTips` splits a reward by — sums to
+    the recorded total (the hypothesis of `C09_divvy_sum`: the credits of a reward then add up to the reward, and the tips escrow covers
+    them), and only lists delegations to bonded validators, over the reporter-stake histories (validators leaving the bonded set by the
+    cap, by downtime jailing, selectors with several delegations) -/
+def runSnapshotSum (_inp : List String) (out : String) : Option Res := Id.run do
+  let mut ok := true
+  let mut note := ""
+  let mut n := 0
+  let mut multi := 0
+  for rec in out.splitOn " ;; " do
+    if rec.startsWith "M " then
+      match colon (rec.drop 2).toString with
+      | r :: p :: m :: q :: t :: os :: _ =>
+        match parseM s!"{r}:{p}:{m}:{q}:{t}:{os}" with
+        | some mr =>
+          n := n + 1
+          if mr.origins.length ≥ 2 then multi := multi + 1
+          let sm := (mr.origins.map (·.2.2)).sum
+          if sm != mr.total then
+            ok := false
+            if note.isEmpty then note := s!"report of {mr.reporter} (power {mr.power}): the recorded origins sum to {sm}, the recorded total is {mr.total} ({mr.origins})"
+        | none => pure ()
+      | _ => pure ()
+  return some { agree := true, monitor := ok, nontrivial := decide (n ≥ 1 ∧ multi ≥ 1), model := s!"reports={n} multi={multi}", note := note }
 
 end Driver
